@@ -588,6 +588,7 @@ func menu() []item {
 	}
 	its = append(its, menuExt()...)
 	its = append(its, menuPoolWit()...)
+	its = append(its, menuPoolRep()...)
 	// the valid block itself (control: must be accepted)
 	add(item{ID: "ctl.valid-block", Group: "control", Hdr: true, Want: "valid", Make: func(c *stateCtx) *delivery {
 		return &delivery{Raw: append([]byte{}, c.bBytes...), Flag: c.fam.SRIH}
